@@ -93,20 +93,20 @@ def cases(ctx):
 
 def build_project_ini(R, names, commit_msg_cfg, tag_msg_cfg):
     """the same project configured through setup.cfg (only names / values expressible in INI)"""
-    lines = ["[bumpver]", 'current_version = "v1.2.3-beta"', 'version_pattern = "vMAJOR.MINOR.PATCH[-TAG]"',
+    lines = ["[bumpver]", f'current_version = "{OLD}"', f'version_pattern = "{VP}"',
              "commit = True", "tag = True", "push = False",
              f'commit_message = "{commit_msg_cfg}"', f'tag_message = "{tag_msg_cfg}"', "", "[bumpver:file_patterns]",
              "setup.cfg =", '    current_version = "{version}"']
     files = {}
     for n in names:
         lines += [f"{n} =", "    ver {version}"]
-        files[n] = "text\nver v1.2.3-beta\n"
+        files[n] = f"text\nver {OLD}\n"
     files["setup.cfg"] = "\n".join(lines) + "\n"
     return files
 
 
 def build_project(R, names, commit_msg_cfg=None, tag_msg_cfg=None):
-    lines = ["[bumpver]", 'current_version = "v1.2.3-beta"', 'version_pattern = "vMAJOR.MINOR.PATCH[-TAG]"',
+    lines = ["[bumpver]", f"current_version = {projects.toml_str(OLD)}", f"version_pattern = {projects.toml_str(VP)}",
              "commit = true", "tag = true", "push = false"]
     if commit_msg_cfg:
         lines.append(f"commit_message = {projects.toml_str(commit_msg_cfg)}")
@@ -116,7 +116,7 @@ def build_project(R, names, commit_msg_cfg=None, tag_msg_cfg=None):
     files = {}
     for n in names:
         lines.append(f'{toml_key(n)} = ["ver {{version}}"]')
-        files[n] = "text\nver v1.2.3-beta\n"
+        files[n] = f"text\nver {OLD}\n"
     files["bumpver.toml"] = "\n".join(lines) + "\n"
     return files
 
@@ -128,7 +128,20 @@ def toml_key(n):
     return projects.toml_str(n)
 
 
-OLD, NEW, OLD_PEP, NEW_PEP = "v1.2.3-beta", "v1.2.4-beta", "1.2.3b0", "1.2.4b0"
+# version schemes: the tag name is the version, so its literal characters travel through the VCS command line too
+SCHEMES = [("vMAJOR.MINOR.PATCH[-TAG]", "v1.2.3-beta", "v1.2.4-beta", "1.2.3b0", "1.2.4b0"),
+           ("1!MAJOR.MINOR.PATCH", "1!1.2.3", "1!1.2.4", "1!1.2.3", "1!1.2.4"),
+           ("rel(MAJOR.MINOR.PATCH)", "rel(1.2.3)", "rel(1.2.4)", "rel(1.2.3)", "rel(1.2.4)"),
+           ("MAJOR.MINOR.PATCH+l0cal&x", "1.2.3+l0cal&x", "1.2.4+l0cal&x", "1.2.3+l0cal&x", "1.2.4+l0cal&x"),
+           ("MAJOR.MINOR.PATCH;q'x", "1.2.3;q'x", "1.2.4;q'x", "1.2.3;q'x", "1.2.4;q'x")]
+VP, OLD, NEW, OLD_PEP, NEW_PEP = SCHEMES[0]
+
+
+def use_scheme(i):
+    global VP, OLD, NEW, OLD_PEP, NEW_PEP
+    VP, OLD, NEW, OLD_PEP, NEW_PEP = SCHEMES[i]
+
+
 PINNED = [{"kind": "fake", "seed": 12, "vcs": "git", "cm": "'quoted' -> {new_version} \"x\"", "tm": " {new_version} "}]
 
 
@@ -136,6 +149,9 @@ def run_fake(ctx, case):
     R = random.Random(case["seed"])
     contracts.install_k12()
     vcs = case["vcs"]
+    sch = 0 if "cm" in case or R.random() < 0.5 else R.randrange(1, len(SCHEMES))
+    use_scheme(sch)
+    ctx.count(f"version_scheme:{sch}")
     names = R.sample(PATH_NAMES, R.randint(1, 3))
     cm, used_c = gen_template(R)
     tm, used_t = gen_template(R)
@@ -159,7 +175,7 @@ def run_fake(ctx, case):
     if via_cfg and R.random() < 0.15 and "cm" not in case:
         tm, used_t = "", {"empty-tag-message"}   # documented: an empty tag message gives a lightweight tag
     edges = via_cfg and any(t != t.strip("'\" ") for t in (cm, tm))
-    ini = via_cfg and R.random() < 0.5 and tm != "" and not edges
+    ini = via_cfg and R.random() < 0.5 and tm != "" and not edges and sch <= 2
     if edges:
         ctx.count("config_templates_with_edge_quotes_or_blanks")
     if ini:
@@ -302,6 +318,9 @@ def cleanup_stable(msg):
 def run_real(ctx, case):
     R = random.Random(case["seed"])
     contracts.install_k12()
+    sch = 0 if R.random() < 0.4 else R.randrange(1, len(SCHEMES))
+    use_scheme(sch)
+    ctx.count(f"real_git_version_scheme:{sch}")
     for _ in range(20):
         cm, used_c = gen_template(R)
         tm, used_t = gen_template(R)
